@@ -376,6 +376,9 @@ def cmd_check(prop, tier, replay=None):
 
 def _check(prop, tier, replay, spec, seed, jobs, t0, scratch, env, known):
     stages = spec['stages']
+    only = os.environ.get('RSV_ONLY_STAGE')  # debugging aid: run the stages whose tag contains this string
+    if only and not replay:
+        stages = [s for s in stages if only in stage_tag(s)] or stages
     # ---- build everything first -------------------------------------------------
     exes = {}
     try:
@@ -639,7 +642,9 @@ def cmd_baseline_off():
         if r.returncode:
             print(r.stdout.decode(errors='replace')[-3000:])
             return 1
-        r = run(['ctest', '--test-dir', bdir, '-j8', '--timeout', '900', '--output-junit', os.path.join(bdir, 'junit.xml')],
+        # full output of passed tests, so that the sub-test lines survive (ctest cuts passed output at 1 KiB by default)
+        r = run(['ctest', '--test-dir', bdir, '-j8', '--timeout', '900', '--test-output-size-passed', '50000000',
+                 '--test-output-size-failed', '50000000', '--output-junit', os.path.join(bdir, 'junit.xml')],
                 stdout=subprocess.PIPE, stderr=subprocess.STDOUT)
         out = r.stdout.decode(errors='replace')
         print(out[-6000:])
@@ -652,12 +657,14 @@ def cmd_baseline_off():
                 name = tc.get('name')
                 so = tc.find('system-out')
                 txt = so.text if so is not None and so.text else ''
-                subs = [ln.rsplit('... ', 1) for ln in txt.splitlines() if '... ' in ln and ln.rstrip().endswith(('passed.', 'FAILED.', 'failed.'))]
+                # the framework prints "<sub-test name>... " and later, possibly after interleaved log lines, "passed." / "FAILED"
+                import re
                 ok = tc.find('failure') is None and tc.get('status', 'run') != 'fail'
-                if subs:
-                    for nm, res in subs:
-                        if res.strip().startswith('passed'):
-                            passed.add('%s::%s' % (name, nm.strip()))
+                pos = [(m.start(), m.group(1)) for m in re.finditer(r'(?m)^([A-Z][^\n]{0,80}?)\.\.\. ', txt)]
+                for k, (st_, nm) in enumerate(pos):
+                    seg = txt[st_:pos[k + 1][0]] if k + 1 < len(pos) else txt[st_:]
+                    if 'passed.' in seg and 'FAILED' not in seg and 'failed.' not in seg:
+                        passed.add('%s::%s' % (name, nm.strip()))
                 if ok:
                     passed.add('%s::%s' % (name, name))
             os.makedirs(DRV_BUILD, exist_ok=True)
